@@ -4,6 +4,7 @@
    schedule), any deframer honouring the contract, any header parser `plen`, any schedule of destination lengths (0 allowed), any SIZE. *)
 From FB Require Import Sem.Base Sem.Lemmas Model.Fb Model.Deframers Model.Adapters Model.Serve Spec.Api Spec.Frames
   Facets.Fb Facets.DfContract Facets.C02 Facets.C07.
+From FB Require Import Sem.ReadBuf Model.Tokio Facets.AStreams Facets.AStreamsFb.
 Open Scope Z_scope.
 
 (* the payload: draining ReadWriteTake(ReadWriteChain(buffer, transport), n) yields exactly the first min(n, available) bytes of
@@ -56,6 +57,29 @@ Example c07_ex :
   = [([4], [97; 97; 97; 97]); ([72; 73], [120]); ([], [])].
 Proof. vm_compute. reflexivity. Qed.
 
+(* the tokio half, stream level: AsyncFixedBuf read through its AsyncRead impl delivers its unread bytes and never pends, and
+   AsyncReadWriteChain(buffer, transport) — the payload source of the tokio request loop — is an async prefix source of
+   unread ++ unpulled: buffer bytes first, then the transport's, in order, under every pattern of Pending of the transport and for
+   every ReadBuf (zero remaining capacity included).  (The async take on top of it, and the loop, are held by correspondence and C16.) *)
+Theorem c07_async_chain_is_source : forall SIZE chk TS (T : AsyncReader TS) remT okT, async_prefix_source T remT okT ->
+  async_prefix_source (ACH2 chk (AFB chk) T) (rem_ach unread remT) (ok_ach (Inv SIZE) okT).
+Proof. exact achain_fb_is_source. Qed.
+
+(* non-vacuity: a buffer holding "bc" at read offset 1, a transport "de" that pends first; polled with 3-byte ReadBufs *)
+Example c07_async_ex :
+  let w0 := achain_new {| mem := [97; 98; 99; 0]; read_index := 1; write_index := 3 |} ([100; 101], [true; false; true]) in
+  let poll := fun w => prd (ACH2 true (AFB true) marked_rd) w (rb_new (repeat 0 3)) in
+  match poll w0 with
+  | (AROk b1, w1) => rb_filled_bytes b1 = [98; 99] /\
+      match poll w1 with
+      | (ARPending _, w2) => match poll w2 with (AROk b3, _) => rb_filled_bytes b3 = [100; 101] | _ => False end
+      | _ => False
+      end
+  | _ => False
+  end.
+Proof. vm_compute. auto. Qed.
+
 Print Assumptions c07_drain.
 Print Assumptions c07_request.
 Print Assumptions c07_chain_is_source.
+Print Assumptions c07_async_chain_is_source.
